@@ -240,3 +240,109 @@ def bruteforce_lcs_indices(A: "Seq[V]", B: "Seq[V]", G: "Seq[Seq[bool]]", R: "Se
 def diff_sequence_bruteforce(A: "Seq[V]", B: "Seq[V]", compare: "fn") -> "Seq[E]":
     ensures(wf_seq(result, len(A)))
     ensures(aligned(A, B, result, compare))
+
+
+# ------------------------------------------------------------------ generic list differ
+
+@contract("nbdime.diff_utils.count_consumed_symbols", properties=["C02", "C11"])
+def count_consumed_symbols(e: "E") -> "Tuple[int,int]":
+    requires(e.op == "addrange" or e.op == "removerange" or e.op == "patch")
+    requires(implies(e.op == "addrange", has_valuelist(e)) and implies(e.op == "removerange", has_length(e)))
+    ensures(implies(e.op == "addrange", result[0] == 0 and result[1] == len(e.valuelist)))
+    ensures(implies(e.op == "removerange", result[0] == e.length and result[1] == 0))
+    ensures(implies(e.op == "patch", result[0] == 1 and result[1] == 1))
+
+
+@contract("nbdime.diffing.sequences.diff_sequence", properties=["C02", "C11"])
+def diff_sequence(a: "Seq[V]", b: "Seq[V]", compare: "fn") -> "Seq[E]":
+    ensures(wf_seq(result, len(a)))
+    ensures(aligned(a, b, result, compare))
+
+
+@assumed("nbdime.diffing.generic._lookup_predicates", properties=["C02", "C12"])
+def _lookup_predicates(config: "cfg", path: "path") -> "Seq[fn]":
+    # dict/defaultdict manipulation: outside the prover's subset; its frame (config.predicates is left
+    # unchanged) is decided by the C12 check, its value by definition of the table vocabulary.
+    ensures(result == preds_at(path))
+
+
+@lemma("al_prefix")
+def al_prefix(A: "Seq[V]", B: "Seq[V]", f: "fn", D: "Seq[E]", k: "int"):
+    requires(al(A, B, D, f) and 0 <= k and k <= len(D))
+    ensures(al(A, B, D[:k], f))
+    m = len(D)
+    while m > k:
+        m = m - 1
+    with loop(1):
+        invariant(k <= m and m <= len(D))
+        invariant(al(A, B, D[:m], f))
+        decreases(m)
+        hint(snoc(D, m - 1))
+
+
+@assumed("nbdime.diffing.generic.diff_sequence_multilevel", properties=["C01"])
+def diff_sequence_multilevel(a: "Seq[V]", b: "Seq[V]", path: "path", config: "cfg") -> "Seq[E]":
+    # proved separately below from compute_diff_from_snakes' contract; assumed only at this call site
+    requires(differs_ok())
+    ensures(wf_seq(result, len(a)))
+    ensures(apply_seq(a, result) == b)
+
+
+@contract("nbdime.diffing.generic.diff_lists", properties=["C02", "C11", "C01"])
+def diff_lists(a: "Seq[V]", b: "Seq[V]", path: "path", config: "cfg", shallow_diff: "None") -> "Seq[E]":
+    # table contracts (DESIGN 3): every registered differ patches x into y; the single predicate used
+    # for alignment is exact on atomic items (this is the clause operator.__eq__ does not satisfy for
+    # bool/int/float -- see known_findings.json)
+    requires(differs_ok())
+    requires(len(preds_at(path)) >= 1)
+    requires(implies(len(preds_at(path)) == 1, pred_exact(preds_at(path)[0], path_star(path))))
+    ensures(wf_seq(result, len(a)))
+    ensures(apply_seq(a, result) == b)
+    with loop(1):
+        invariant(M == len(shallow_diff) and len(compares) == 1 and compares == preds_at(path))
+        invariant(subpath == path_star(path) and diffit == differs_at(subpath))
+        invariant(wf_seq(shallow_diff, len(a)) and aligned(a, b, shallow_diff, compares[0]))
+        invariant(implies(ie <= M, i == rtake(a, shallow_diff[:ie]) and j == len(rout(a, shallow_diff[:ie]))))
+        invariant(implies(ie == M + 1, i == len(a) and j == len(b)))
+        invariant(0 <= i and i <= len(a) and 0 <= j and j <= len(b))
+        invariant(0 <= rtake(a, di._diff) and rtake(a, di._diff) <= i)
+        invariant(len(rout(a, di._diff)) + i - rtake(a, di._diff) == j)
+        invariant(pref_eq(rout(a, di._diff), b))
+        invariant(gap_eq(a, b, rtake(a, di._diff), i, len(rout(a, di._diff))))
+        invariant(sorted_b(di._diff))
+        invariant(all(wf_entry(di._diff[q], len(a)) for q in range(len(di._diff))))
+        invariant(all(ordered(di._diff[p], di._diff[q]) for p in range(len(di._diff)) for q in range(p + 1, len(di._diff))))
+        invariant(all(di._diff[q].key + span(di._diff[q]) <= i for q in range(len(di._diff))))
+        invariant(all(ie == M + 1 or di._diff[q].key < i or (ie > 0 and di._diff[q].key <= shallow_diff[ie - 1].key)
+                      for q in range(len(di._diff))))
+        hint(al_prefix(a, b, compares[0], shallow_diff, ie + 1))
+        hint(al_prefix(a, b, compares[0], shallow_diff, ie))
+        hint(snoc(shallow_diff, ie))
+        hint(fold1(a, b, compares[0], shallow_diff[:ie], [shallow_diff[ie]]))
+        finally_check(implies(ie < M, al(a, b, shallow_diff[:ie + 1], compares[0])))
+        finally_check(implies(ie < M, al_step(a, b, compares[0], at_head(i), at_head(j), shallow_diff[ie])))
+        finally_check(implies(ie < M, at_head(i) <= shallow_diff[ie].key))
+        finally_check(implies(ie < M and ie > 0, ordered(shallow_diff[ie - 1], shallow_diff[ie])))
+        finally_check(implies(ie < M, all(after_loop(2, di._diff)[q].key <= shallow_diff[ie].key
+                                          for q in range(len(after_loop(2, di._diff))))))
+        finally_check(implies(ie < M and shallow_diff[ie].op == "addrange",
+                              all(after_loop(2, di._diff)[q].key < shallow_diff[ie].key
+                                  for q in range(len(after_loop(2, di._diff))))))
+        finally_check(di._diff == after_loop(2, di._diff) + di._diff[len(after_loop(2, di._diff)):])
+        finally_hint(fold1(a, b, compares[0], after_loop(2, di._diff), di._diff[len(after_loop(2, di._diff)):]))
+    with loop(2):
+        invariant(0 <= k and i + k <= len(a) and j + k <= len(b))
+        invariant(0 <= rtake(a, di._diff) and rtake(a, di._diff) <= i + k)
+        invariant(len(rout(a, di._diff)) + i + k - rtake(a, di._diff) == j + k)
+        invariant(pref_eq(rout(a, di._diff), b))
+        invariant(gap_eq(a, b, rtake(a, di._diff), i + k, len(rout(a, di._diff))))
+        invariant(sorted_b(di._diff))
+        invariant(all(wf_entry(di._diff[q], len(a)) for q in range(len(di._diff))))
+        invariant(all(ordered(di._diff[p], di._diff[q]) for p in range(len(di._diff)) for q in range(p + 1, len(di._diff))))
+        invariant(all(di._diff[q].key + span(di._diff[q]) <= i + k for q in range(len(di._diff))))
+        invariant(all(di._diff[q].key < i + k or (ie > 0 and di._diff[q].key <= shallow_diff[ie - 1].key)
+                      for q in range(len(di._diff))))
+        finally_check(di._diff == at_head(di._diff) + di._diff[len(at_head(di._diff)):])
+        finally_hint(fold1(a, b, compares[0], at_head(di._diff), di._diff[len(at_head(di._diff)):]))
+        finally_check(cmp(compares[0], a[i + k], b[j + k]))
+        finally_check(a[i + k] == b[j + k] or len(di._diff) > len(at_head(di._diff)))
